@@ -655,19 +655,16 @@ protected:
 				if (v <= static_cast<Arith>(maxneg)) { return maxneg; }
 			}
 			constexpr unsigned sizeofInteger = 8 * sizeof(v);
-			if (v == -v) {
-				// v is at maxneg 0x10...000
-				if constexpr (sizeofInteger <= (nbits - rbits)) {
-					f.setbit(sizeofInteger + rbits - 1);
-				}
-			}
-			else {
+			{
+				// take the magnitude in unsigned arithmetic: negating the most negative value (also in the former
+				// test `v == -v`) is undefined behaviour
+				using UArith = std::make_unsigned_t<Arith>;
 				bool negative = (v < 0 ? true : false);
-				v = (v < 0 ? -v : v);
+				UArith m = negative ? static_cast<UArith>(UArith(0) - static_cast<UArith>(v)) : static_cast<UArith>(v);
 				unsigned upper = (sizeofInteger < (nbits - rbits)) ? sizeofInteger : (nbits - rbits);
 				for (unsigned i = 0; i < upper; ++i) {
-					if (v & 0x1) f.setbit(i + rbits);
-					v >>= 1;
+					if (m & 0x1) f.setbit(i + rbits);
+					m >>= 1;
 				}
 				if (negative) f.twosComplement();
 			}
